@@ -48,6 +48,15 @@ def generate(seed, tier):
         op["z"] = z
         op["jac_first"] = rng.random() < 0.4       # the supplied Jacobian is asked for before the right-hand side
         ops.append(op)
+        if not nopar and rng.random() < 0.2:
+            # the owner re-binds the parameter values between two uses of the sensitivity functions
+            srng_ = S("sched")
+            if srng_.random() < 0.5:
+                ops.append({"op": "set_params", "fmt": srng_.choice(["list", "array", "pairs"]),
+                            "values": [[nm, round(srng_.uniform(0.05, 3.0), 4)] for nm in params]})
+            else:
+                sub_ = srng_.sample(list(params), srng_.randint(1, len(params)))
+                ops.append({"op": "set_params", "fmt": "dict", "values": [[nm, round(srng_.uniform(0.05, 3.0), 4)] for nm in sub_]})
         if not nopar and rng.random() < 0.12 and len(ops) < 4:
             # the model grows between two uses of the sensitivity functions (same states and parameters)
             g = sc.grow_ops(S("sched"), model, names, params, ["grad"], count=1)
